@@ -276,10 +276,13 @@ func init() {
 				fmt.Fprintf(out, "-\tskip %s generr %s\tok\n", c.ID, labOneLine(c.GenErr))
 				continue
 			case !c.GoOK:
-				fmt.Fprintf(out, "-\tskip %s gocompile %s\tok\n", c.ID, labOneLine(c.GoCompileErr))
+				// the run reported success but the generated Go does not compile: no document of this
+				// schema can be loaded at all
+				fmt.Fprintf(out, "-\tskip %s gocompile format=%s style=%v src=%s\tFAIL generated-go-does-not-compile case=%s format=%s %s\n",
+					c.ID, c.Format, c.Style, c.Defs.sexp(), c.ID, c.Format, labOneLine(labFirstLine(c.GoCompileErr)))
 				continue
 			}
-			fmt.Fprintf(out, "-\tcase %s format=%s degraded=%v notes=%v src=%s\tok\n", c.ID, c.Format, c.Degraded, c.Notes, c.Defs.sexp())
+			fmt.Fprintf(out, "-\tcase %s format=%s degraded=%v notes=%v style=%v src=%s\tok\n", c.ID, c.Format, c.Degraded, c.Notes, c.Style, c.Defs.sexp())
 			fmt.Fprintf(out, "defschemas %s %s\tok\tok\n", c.ID, virSchemas(c.IRGo))
 			rv, rvErr := c.RefValidator("")
 			for _, d := range b.docs[c.ID] {
